@@ -17,7 +17,7 @@ var svPropID = governance.ProposalID(strings.Repeat("ab", 32))
 var svPropID2 = governance.ProposalID(strings.Repeat("cd", 32))
 
 type svPropPre struct {
-	where    int // 0 absent, 1 active/funding, 2 active/voting, 3 failed/cancelled, 4 failed/insufficient funds
+	where    int // 0 absent, 1 active/funding, 2 active/voting, 3 failed/cancelled, 4 failed/insufficient funds, 5 failed/expired (insufficient votes), 6 failed/voted no
 	proposer int
 	goal     *big.Int
 	fundDL   int64
@@ -47,7 +47,7 @@ func svPreGov(pre *svPropPre) func(e *svEnv) {
 				l.addMirror("propFunds:"+tag+":total", "escrow", "OLT", pm.ProposalFund.GetCurrentFundsForProposal(id).BigInt())
 			}
 		})
-		pre.where = sv.Choice("prop.where", 5)
+		pre.where = sv.Choice("prop.where", 7)
 		if pre.where == 0 {
 			return
 		}
@@ -66,6 +66,10 @@ func svPreGov(pre *svPropPre) func(e *svEnv) {
 			p.Status, p.Outcome, state = governance.ProposalStatusCompleted, governance.ProposalOutcomeCancelled, governance.ProposalStateFailed
 		case 4:
 			p.Status, p.Outcome, state = governance.ProposalStatusCompleted, governance.ProposalOutcomeInsufficientFunds, governance.ProposalStateFailed
+		case 5:
+			p.Status, p.Outcome, state = governance.ProposalStatusCompleted, governance.ProposalOutcomeInsufficientVotes, governance.ProposalStateFailed
+		case 6:
+			p.Status, p.Outcome, state = governance.ProposalStatusCompleted, governance.ProposalOutcomeCompletedNo, governance.ProposalStateFailed
 		}
 		if err := pm.Proposal.WithPrefixType(state).Set(p); err != nil {
 			sv.Unreachable("proposal setup")
@@ -87,6 +91,11 @@ func svPreGov(pre *svPropPre) func(e *svEnv) {
 		if pre.where == 1 {
 			cur := pm.ProposalFund.GetCurrentFundsForProposal(svPropID)
 			sv.Assume(cur.BigInt().Cmp(pre.goal) < 0)
+		}
+		// ... and one that went to voting (and then expired or was voted down) has reached it
+		if pre.where == 2 || pre.where == 5 || pre.where == 6 {
+			cur := pm.ProposalFund.GetCurrentFundsForProposal(svPropID)
+			sv.Assume(cur.BigInt().Cmp(pre.goal) >= 0)
 		}
 	}
 }
@@ -125,7 +134,7 @@ func svPropStage(e *svEnv, id governance.ProposalID) (*governance.Proposal, gove
 // SV_C14_funds_and_stage: one create / fund / withdraw-funds / cancel
 // transaction from an arbitrary proposal record.
 //
-// sv:bounds proposal absent, or funding / voting in the active store, or cancelled / under-funded in the failed store; arbitrary proposer among 2 parties, funding goal, funding deadline (any relation to the block height 20), per-funder contributions (present or absent); kind a choice; actor (proposer / funder field, who signs) any party, beneficiary any party; amounts any integer in {OLT, unregistered}; the shared proposal store's selected stage prefix (in-memory residue) active or failed; mempool-admitted regime
+// sv:bounds proposal absent, or funding / voting in the active store, or cancelled / under-funded / expired in voting / voted down in the failed store; arbitrary proposer among 2 parties, funding goal, funding deadline (any relation to the block height 20), per-funder contributions (present or absent); kind a choice; actor (proposer / funder field, who signs) any party, beneficiary any party; amounts any integer in {OLT, unregistered}; the shared proposal store's selected stage prefix (in-memory residue) active or failed; mempool-admitted regime
 // sv:outside vote, expire and finalise (the tally and the fund distribution are not yet encoded); configuration-update proposals; histories
 // sv:goal stage moves only forward: fund never moves a proposal that is not funding or is past its deadline, and moves it to voting exactly when the contributions reach the goal; cancel only by the proposer, only while funding and before the deadline, moves it to the failed store as cancelled; withdraw only from a cancelled or under-funded (deadline passed, goal not met) proposal, at most the funder's own contribution, debiting the escrow by exactly what the beneficiary receives; the total record stays the sum of the contributions; create only for an id without a record in any stage store, escrowing exactly the initial funding
 func SV_C14_funds_and_stage() {
